@@ -25,7 +25,7 @@ LANDMARKS = {
     "without_isolated-noop": ("BpSeq.without_isolated", "return self"),
 }
 OPS = ["str", "pairs", "paired", "paired5to3", "sequence", "dot_bracket", "fcfs", "all_dot_brackets", "elements", "without_pseudoknots", "without_isolated", "eq_fresh",
-       "convert_none", "convert_cbc"]
+       "convert_none", "convert_cbc", "convert_broken"]
 _cur = {}
 
 
@@ -77,6 +77,16 @@ def _apply(obj, op, fresh_text):
         import pulp
 
         return obj.convert_to_dot_bracket(pulp.PULP_CBC_CMD(msg=False)).structure, None
+    if op == "convert_broken":
+        # the explicit entry point with a back-end that cannot run (its executable does not exist): the documented
+        # answer is the first-come-first-served notation, and nothing about the object may change
+        import pulp
+
+        core.SolverWatch.injecting += 1
+        try:
+            return obj.convert_to_dot_bracket(pulp.COIN_CMD(path="/nonexistent/vmon/cbc", msg=False)).structure, None
+        finally:
+            core.SolverWatch.injecting -= 1
     if op == "eq_fresh":
         return obj == common.BpSeq.from_string(fresh_text), None
     raise KeyError(op)
@@ -136,6 +146,13 @@ def cases(shard, nshards, seed, tier):
         for hist in ([[0, "without_pseudoknots"], [0, "dot_bracket"], [0, "without_pseudoknots"]], [[0, "without_isolated"], [1, "without_pseudoknots"], [0, "str"]]):
             if mine():
                 yield {"family": "many-stems-knot-first", "n": pos + 2, "pairs": sorted(pairs), "history": hist}
+    # ten (thorough: also eleven) independent pseudoknots whose two stems are equally long: 1024 (2048) members in the
+    # list of all notations, read twice on one object
+    for units in (10,) + ((11,) if tier != "quick" else ()):
+        name, n, pairs = gen2d.many_small_knots(units, a=2, b=2)
+        for hist in ([[0, "all_dot_brackets"], [0, "all_dot_brackets"], [0, "dot_bracket"]], [[0, "dot_bracket"], [0, "all_dot_brackets"], [0, "all_dot_brackets"]]):
+            if mine():
+                yield {"family": "thousand-notations", "n": n, "pairs": pairs, "history": hist}
     nmax = 6 if tier == "quick" else 7
     for n in range(2, nmax + 1):
         for pairs in gen2d.matchings(n):
